@@ -213,6 +213,7 @@ fn expert_bind(incr: &Incr<i32>, pool: Vec<Incr<i32>>, slot: Rc<RefCell<Option<I
 }
 
 pub fn run_c14(bytes: &[u8], tier: Tier) -> Outcome {
+    crate::engine::set_engine_hash_seed(bytes);
     let mut ch = Choices::new(bytes);
     let mode_bind = ch.flag(1, 4);
     let steps = if tier == Tier::Quick { 14 } else { 40 };
